@@ -74,6 +74,14 @@ def validateReturnToPinned (env : Env) (url : Str) (allow : List Str) : Except E
 /-- `_DEFAULT_PORTS[scheme]` -/
 def defaultPortOf (scheme : Str) : Option Nat := (Gen.Pkce.defaultPorts.find? (fun kv => kv.1 == scheme)).map (·.2)
 
+/-- the origin compared with the allow-list (repaired shape): the port is part of it unless it is the scheme's default -/
+def originString (scheme hn : Str) (prt : Option Nat) (dflt : Nat) : Str :=
+  match prt with
+  | none => scheme ++ sColonSlashSlash ++ hn
+  | some p =>
+    if p = dflt then scheme ++ sColonSlashSlash ++ hn
+    else scheme ++ sColonSlashSlash ++ hn ++ ':' :: decimal p
+
 /-- `_validate_return_to`, shape `repaired` -/
 def validateReturnToRepaired (env : Env) (url : Str) (allow : List Str) : Except Esc Str :=
   if url.isEmpty || decide (url.length > Gen.Pkce.maxReturnToLen) then .ok []
@@ -94,14 +102,7 @@ def validateReturnToRepaired (env : Env) (url : Str) (allow : List Str) : Except
           else
             match defaultPortOf sp.scheme with
             | none => .error .keyError
-            | some dflt =>
-              let origin :=
-                match prt with
-                | none => sp.scheme ++ sColonSlashSlash ++ hn
-                | some p =>
-                  if p = dflt then sp.scheme ++ sColonSlashSlash ++ hn
-                  else sp.scheme ++ sColonSlashSlash ++ hn ++ ':' :: decimal p
-              if allow.contains origin then .ok url else .ok []
+            | some dflt => if allow.contains (originString sp.scheme hn prt dflt) then .ok url else .ok []
 
 /-- `_validate_return_to` as the source currently has it -/
 def validateReturnTo (env : Env) (url : Str) (allow : List Str) : Except Esc Str :=
